@@ -44,6 +44,8 @@ def cases(ctx):
         yield {'kind': 'cfg', 'X': gen.unit_chain_cfg(rng), 'ns': [0, 1, 2, 3]}
     for i in range(40 * K):
         yield {'kind': 'cfg', 'X': gen.near_cnf_cfg(rng), 'ns': [0, 1, 2, 3]}
+    for i in range(20 * K):
+        yield {'kind': 'cfg', 'X': gen.cnf_with_unproductive(rng), 'ns': [0, 1, 2, 3]}
     for k in range(0, 3):          # symbols that print like the constants 0 and 1
         for r in gen.regexps_of_size(k, ['0', '1']):
             if k < 2 or rng.random() < (0.05 if not thorough else 0.5):
